@@ -17,6 +17,8 @@ type countGun struct {
 	mu    *sync.Mutex
 	shots *[]int
 	ident func(core.Ammo) int
+	// onShot, when set, is called with the number of shots made so far (under mu)
+	onShot func(n int)
 }
 
 func (g *countGun) Bind(core.Aggregator, core.GunDeps) error { return nil }
@@ -24,6 +26,9 @@ func (g *countGun) Shoot(a core.Ammo) {
 	i := g.ident(a)
 	g.mu.Lock()
 	*g.shots = append(*g.shots, i)
+	if g.onShot != nil {
+		g.onShot(len(*g.shots))
+	}
 	g.mu.Unlock()
 }
 
@@ -38,13 +43,34 @@ func (nopAggregator) Report(core.Sample) {}
 // ObserveEngine runs the provider under the REAL engine (one pool, `instances` instances, more
 // schedule tokens than ammo) and reports the shots made and how Engine.Run / Engine.Wait ended.
 func ObserveEngine(b *Built, instances int, tokens int) (shots []int, result string, waited bool) {
+	return ObserveEngineCancel(b, instances, tokens, -1)
+}
+
+// ObserveEngineCancel is ObserveEngine with the engine's context cancelled: cancelAt = 0 before
+// Engine.Run is called, cancelAt = k > 0 from inside the k-th shot (-1: never). After a cancellation
+// Engine.Run must return (context.Canceled) and Engine.Wait must return: no instance may stay blocked in
+// Acquire of a provider that was told to stop.
+func ObserveEngineCancel(b *Built, instances int, tokens int, cancelAt int) (shots []int, result string, waited bool) {
 	var mu sync.Mutex
+	ctx, cancel := context.WithCancel(context.Background())
+	defer cancel()
+	var onShot func(int)
+	if cancelAt > 0 {
+		onShot = func(n int) {
+			if n == cancelAt {
+				cancel()
+			}
+		}
+	}
+	if cancelAt == 0 {
+		cancel()
+	}
 	conf := engine.Config{Pools: []engine.InstancePoolConfig{{
 		ID:         "verif",
 		Provider:   b.P,
 		Aggregator: nopAggregator{},
 		NewGun: func() (core.Gun, error) {
-			return &countGun{mu: &mu, shots: &shots, ident: b.Ident}, nil
+			return &countGun{mu: &mu, shots: &shots, ident: b.Ident, onShot: onShot}, nil
 		},
 		NewRPSSchedule:  func() (core.Schedule, error) { return schedule.NewOnce(int64(tokens)), nil },
 		StartupSchedule: schedule.NewOnce(int64(instances)),
@@ -52,8 +78,6 @@ func ObserveEngine(b *Built, instances int, tokens int) (shots []int, result str
 	m := engine.Metrics{Request: &monitoring.Counter{}, Response: &monitoring.Counter{},
 		InstanceStart: &monitoring.Counter{}, InstanceFinish: &monitoring.Counter{}}
 	e := engine.New(zap.NewNop(), m, conf)
-	ctx, cancel := context.WithCancel(context.Background())
-	defer cancel()
 	done := make(chan string, 1)
 	go func() {
 		defer func() {
